@@ -77,6 +77,7 @@ Definition has_ty (t : ty) (v : val) : bool :=
   match t, v with
   | TAny, _ => true
   | TInt, VInt _ => true
+  | TInt, VFloat (Some _) _ => true      (* wholeFloatAs: a float64 the encoder prints as an integer *)
   | TStr, VStr _ => true
   | TBool, VBool _ => true
   | TArr, VArr _ => true
@@ -88,6 +89,15 @@ Definition zero (t : ty) : val :=
   match t with
   | TAny => VNull | TInt => VInt 0 | TStr => VStr "" | TBool => VBool false
   | TArr => VArr [] | TObj => VObj []
+  end.
+
+(** What [fieldVal[T]] hands back for a value it accepts: the value itself,
+    except that for [T = int] a whole float is converted ([wholeFloatAs]:
+    exactly the floats whose printed form yaml reads back as an int). *)
+Definition coerce (t : ty) (v : val) : val :=
+  match t, v with
+  | TInt, VFloat (Some z) _ => VInt z
+  | _, _ => v
   end.
 
 (** [(v, ok, err)]: [FAbsent] = (zero, false, nil); [FOk v] = (v, true, nil);
@@ -102,7 +112,7 @@ Definition field_val (t : ty) (m : obj) (k : string) : fv :=
       | TObj | TArr => FAbsent            (* a null section counts as absent *)
       | _ => FOk (zero t)
       end
-  | Some v => if has_ty t v then FOk v else FErr
+  | Some v => if has_ty t v then FOk (coerce t v) else FErr
   end.
 
 (** The value a caller sees in [v] whatever [ok] and [err] are. *)
